@@ -165,6 +165,18 @@ pub fn check_host_tree(nodes: &[crate::c17::Node], opts: &Opts, newline_before_r
     use crate::c17::LowSrc;
     let mut b = crate::c17::build(nodes, opts);
     if newline_before_rules {
+        // non-ASCII / astral characters inside the wrapper preludes (they are replayed as raw text)
+        for sh in [&mut b.input, &mut b.normal, &mut b.low] {
+            for p in sh.pieces.iter_mut() {
+                if p.ctx == "prelude:@layer" && p.text == "x" {
+                    p.text = "é😀x".into();
+                } else if p.ctx == "prelude:@supports" && p.text == "b" {
+                    p.text = "\"宋😀\"".into();
+                }
+            }
+        }
+    }
+    if newline_before_rules {
         // put every rule on its own line, with an astral comment in front, so that lines and columns matter
         let mut k = 0;
         let mut inserted: Vec<usize> = vec![];
